@@ -210,7 +210,7 @@ def run(ctx):
         return
     d = os.path.join(vlib.BUILD, "cases", "C03")
     os.makedirs(d, exist_ok=True)
-    sizes = {"byte": (1500, 500), "struct": (1000, 300)} if ctx.tier == "thorough" else {"byte": (120, 36), "struct": (90, 27)}
+    sizes = {"byte": (1000, 300), "struct": (700, 200)} if ctx.tier == "thorough" else {"byte": (120, 36), "struct": (90, 27)}
     for level, (n, mal) in sizes.items():
         fmts = [f for f, v in FORMATS.items() if v["level"] == level]
         if not fmts:
